@@ -51,6 +51,12 @@ func c14Corpus(c *Check) []c14Prog {
 		c14Prog{"twin-c", map[string]string{"main.tsh": "import l \"lib.tsh\"\n\nprint(l.Get7(), l.Twice7(2))\n", "lib.tsh": lib(7) + "x := 1 + \"a\"\n"}},
 		c14Prog{"twin-deep-a", map[string]string{"main.tsh": "import l \"mid.tsh\"\n\nprint(l.Mid())\n", "mid.tsh": "import b \"base.tsh\"\n\nfunc Mid() int {\n\treturn b.Get8()\n}\n", "base.tsh": lib(8)}},
 		c14Prog{"twin-deep-b", map[string]string{"main.tsh": "import l \"mid.tsh\"\n\nprint(l.Mid())\n", "mid.tsh": "import b \"base.tsh\"\n\nfunc Mid() int {\n\treturn b.Get8()\n}\n", "base.tsh": strings.Replace(lib(8), "return 8", "return 80", 1)}},
+		// programs that fail late, in the converter, after every kind of construct has been emitted (state
+		// built up during a failed call must not leak into the next call on the same object)
+		c14Prog{"multi-values", map[string]string{"main.tsh": c14Rich + "print(\"end\")\n"}},
+		c14Prog{"fail-late-string-order", map[string]string{"main.tsh": c14Rich + "late := \"a\" < \"b\"\nprint(late)\n"}},
+		c14Prog{"fail-late-break-outside-loop", map[string]string{"main.tsh": c14Rich + "switch a {\ncase 1:\n\tbreak\n}\n"}},
+		c14Prog{"fail-late-in-function", map[string]string{"main.tsh": c14Rich + "func tail() bool {\n\tp, q := 1, 2\n\tp, q = q, p\n\tfor i := 0; i < 2; i++ {\n\t\tp += i\n\t}\n\treturn \"x\" > \"y\"\n}\nprint(tail())\n"}},
 		c14Prog{"fail-lexical", map[string]string{"main.tsh": "x := \"unterminated\nprint(x)\n"}},
 		c14Prog{"fail-syntax", map[string]string{"main.tsh": "if true {\nprint(1)\n"}},
 		c14Prog{"fail-type", map[string]string{"main.tsh": "x := 1 + \"a\"\n"}},
@@ -61,6 +67,48 @@ func c14Corpus(c *Check) []c14Prog {
 	)
 	return progs
 }
+
+// c14Rich uses every stateful facility of transpiler and converters once: multi-value lists, helper
+// variables, loop counters, function frames, slice and string helpers, if chains, a switch.
+const c14Rich = `a, b := 1, 2
+a, b = b, a
+s := []string{"x", "y"}
+s[3] = "z"
+t := []string{}
+n := copy(t, s)
+func swap(p int, q int) (int, int) {
+	p, q = q, p
+	return p, q
+}
+func count(w string) int {
+	c := 0
+	for i, ch := range w {
+		if ch == "a" {
+			c += i
+		} else if ch == "b" {
+			c++
+		} else {
+			continue
+		}
+	}
+	return c
+}
+a, b = swap(a, b)
+w := "abc"
+for i := 0; i < 2; i++ {
+	for j := 0; j < 2; j++ {
+		x, y := i, j
+		x, y = y, x
+		print(x, y, len(s), n, w[1:2], count("abab"))
+	}
+}
+switch a {
+case 1:
+	print("one")
+default:
+	print("other")
+}
+`
 
 type c14Event struct {
 	Proc, History string
